@@ -31,6 +31,7 @@ from . import symalg, skeleton
 from .symalg import poly, cplx, coeff_tags, ev, cev, Env, NotSymbolic, close
 
 NN = 2
+SEEDS = 6
 INF = math.inf
 
 
@@ -64,8 +65,16 @@ def lin_input(st, v):
 
 
 def clause_sign(R, rule):
-    for N in (512, 1024):
-        _sign_one(R, rule, N)
+    """quick: vectors of length 2, 6 random points; thorough: lengths 2 and 4, 40 points"""
+    global NN, SEEDS
+    SEEDS = 40 if R.tier == "thorough" else 6
+    try:
+        for nn in ((2, 4) if R.tier == "thorough" else (2,)):
+            NN = nn
+            for N in (512, 1024):
+                _sign_one(R, rule, N)
+    finally:
+        NN, SEEDS = 2, 6
 
 
 def _const_vid(st, vid):
@@ -85,7 +94,8 @@ def _sign_one(R, rule, N):
     ctx.hooks["may_panic"] = lambda inst: False
     usz, u32, i16, u8 = ctx.usize_ty(), S.ty("u32"), S.ty("i16"), S.ty("u8")
     spec = SPEC[N]
-    site = f"sign::<{N}>"
+    site = f"sign::<{N}>" + ("" if NN == 2 else f" [vectors of length {NN}]")
+    KS = "" if NN == 2 else f"|len{NN}"
     calls = []
 
     def m_fft(E, st, fr, bi, callee, args, dest_ty):
@@ -156,25 +166,25 @@ def _sign_one(R, rule, N):
     R.analysed.setdefault("sign_algebra", {})[str(N)] = {"calls": [c[0] for c in calls], "outcomes": len(outs)}
     errs = [c for c in calls if c[0] == "fft-error"]
     if errs:
-        R.violation(rule, site, f"a forward transform is applied to something that is not a constant multiple of one key/hash polynomial: {errs[0][1]}", key=f"sign|{N}|fftin")
+        R.violation(rule, site, f"a forward transform is applied to something that is not a constant multiple of one key/hash polynomial: {errs[0][1]}", key=f"sign|{N}|fftin{KS}")
         return
     ffts = [(c[1], c[2]) for c in calls if c[0] == "fft"]
     ffs = [c for c in calls if c[0] == "ffsampling"]
     if not outs or not ffs or not arrs:
-        R.violation(rule, site, f"symbolic run incomplete: {len(outs)} outcomes, {len(ffs)} sampler calls, {len(arrs)} candidate pairs", key=f"sign|{N}|run")
+        R.violation(rule, site, f"symbolic run incomplete: {len(outs)} outcomes, {len(ffs)} sampler calls, {len(arrs)} candidate pairs", key=f"sign|{N}|run{KS}")
         return
     bases = sorted(b for _, b in ffts)
     R.check(bases == ["b0", "b1", "b2", "b3", "c"], rule, site + " transforms", f"the hash point (scaled by {[a for a, b in ffts if b == 'c'][0] if 'c' in bases else '?'}) and the four basis polynomials are transformed",
-            f"transformed: {ffts}", key=f"sign|{N}|ffts")
+            f"transformed: {ffts}", key=f"sign|{N}|ffts{KS}")
     h2p = [c for c in calls if c[0] == "hash_to_point"]
-    R.check(len(h2p) == 1 and h2p[0][1] == (N, N), rule, site + " hash", f"one hash_to_point call with n = {N}", f"hash_to_point calls: {h2p}", key=f"sign|{N}|h2p")
+    R.check(len(h2p) == 1 and h2p[0][1] == (N, N), rule, site + " hash", f"one hash_to_point call with n = {N}", f"hash_to_point calls: {h2p}", key=f"sign|{N}|h2p{KS}")
     t_val, tree_arg, pv, rv, st_f = ffs[-1][1:]
     cand, st_c = arrs[-1]
     try:
         t_tags = [coeff_tags(t_val.f[0]), coeff_tags(t_val.f[1])]
         s_tags = [coeff_tags(cand.head[0]), coeff_tags(cand.head[1])]
     except (NotSymbolic, AttributeError, IndexError) as e:
-        R.violation(rule, site, f"target or candidate vector has no symbolic form: {e}", key=f"sign|{N}|sym")
+        R.violation(rule, site, f"target or candidate vector has no symbolic form: {e}", key=f"sign|{N}|sym{KS}")
         return
 
     def mkenv(seed, z=None):
@@ -206,7 +216,7 @@ def _sign_one(R, rule, N):
         ok_a = ok_b = ok_c = ok_d = True
         kappa = None
         msg = {}
-        for seed in range(6):
+        for seed in range(SEEDS):
             zero = [[0j] * NN, [0j] * NN]
             env, s0 = s_at(seed, zero)
             for e in range(NN):
@@ -253,12 +263,12 @@ def _sign_one(R, rule, N):
                         if not close(got, want, 1e-8):
                             ok_d = False
                             msg["d"] = f"Gram entry [{i}][{j}] of the matrix applied to (t - z) is {got}, of the key's basis {want}"
-        R.check(ok_a, rule, site + " (a) target", f"s(z = 0) = ({'+' if kappa == 1 else '-'}ĉ, 0): t is (c, 0) B^-1 for the matrix used", msg.get("a", ""), key=f"sign|{N}|a")
-        R.check(ok_b, rule, site + " (b) same target", "the candidate vanishes at z = t for the t handed to ffsampling: s = (t - z) B''", msg.get("b", ""), key=f"sign|{N}|b")
-        R.check(ok_c, rule, site + " (c) coset", "B'' rows satisfy u f + kappa v g = 0 / +-q: every candidate is congruent to the verifier's (c - s2 h, s2) up to sign", msg.get("c", ""), key=f"sign|{N}|c")
-        R.check(ok_d, rule, site + " (d) covariance", "B'' B''* equals the Gram matrix of the key's basis (the one the tree is built from)", msg.get("d", ""), key=f"sign|{N}|d")
+        R.check(ok_a, rule, site + " (a) target", f"s(z = 0) = ({'+' if kappa == 1 else '-'}ĉ, 0): t is (c, 0) B^-1 for the matrix used", msg.get("a", ""), key=f"sign|{N}|a{KS}")
+        R.check(ok_b, rule, site + " (b) same target", "the candidate vanishes at z = t for the t handed to ffsampling: s = (t - z) B''", msg.get("b", ""), key=f"sign|{N}|b{KS}")
+        R.check(ok_c, rule, site + " (c) coset", "B'' rows satisfy u f + kappa v g = 0 / +-q: every candidate is congruent to the verifier's (c - s2 h, s2) up to sign", msg.get("c", ""), key=f"sign|{N}|c{KS}")
+        R.check(ok_d, rule, site + " (d) covariance", "B'' B''* equals the Gram matrix of the key's basis (the one the tree is built from)", msg.get("d", ""), key=f"sign|{N}|d{KS}")
     except NotSymbolic as e:
-        R.violation(rule, site, f"candidate not symbolic: {e}", key=f"sign|{N}|sym2")
+        R.violation(rule, site, f"candidate not symbolic: {e}", key=f"sign|{N}|sym2{KS}")
         return
     # e: the norm
     okn = False
@@ -279,13 +289,13 @@ def _sign_one(R, rule, N):
                 why = f"norm compared ({op}) with {rb}"
         except NotSymbolic as e:
             why = str(e)
-    R.check(okn, rule, site + " (e) norm", f"the quantity compared with {spec['beta2']} is (sum |s0|^2 + sum |s1|^2) / {N} over all coefficients of the candidate", why, key=f"sign|{N}|e")
+    R.check(okn, rule, site + " (e) norm", f"the quantity compared with {spec['beta2']} is (sum |s0|^2 + sum |s1|^2) / {N} over all coefficients of the candidate", why, key=f"sign|{N}|e{KS}")
     # f: plumbing
     okt = type(tree_arg) is Pt and tree_arg.key == ("h", "sk") and len(tree_arg.proj) == 1 and tree_arg.proj[0][:2] == ("f", 1)
-    R.check(okt, rule, site + " (f) tree", "ffsampling walks the key's own tree", f"tree argument {tree_arg}", key=f"sign|{N}|tree")
+    R.check(okt, rule, site + " (f) tree", "ffsampling walks the key's own tree", f"tree argument {tree_arg}", key=f"sign|{N}|tree{KS}")
     okp = type(pv) is Ag and len(pv.f) == 5 and type(pv.f[1]) is Fl and pv.f[1].lo == pv.f[1].hi == spec["sigma"] and pv.f[2].lo == pv.f[2].hi == spec["sigmin"]
-    R.check(okp, rule, site + " (f) parameters", f"ffsampling gets this variant's parameters (sigmin = {spec['sigmin']})", f"parameters {pv}", key=f"sign|{N}|params")
-    R.check(type(rv) is Md and rv.kind == "rng" and rv.d.get("origin") == "thread_rng", rule, site + " (f) generator", "ffsampling draws from the per-call thread_rng handle", f"generator {rv}", key=f"sign|{N}|rng")
+    R.check(okp, rule, site + " (f) parameters", f"ffsampling gets this variant's parameters (sigmin = {spec['sigmin']})", f"parameters {pv}", key=f"sign|{N}|params{KS}")
+    R.check(type(rv) is Md and rv.kind == "rng" and rv.d.get("origin") == "thread_rng", rule, site + " (f) generator", "ffsampling draws from the per-call thread_rng handle", f"generator {rv}", key=f"sign|{N}|rng{KS}")
     iff = [c for c in calls if c[0] == "ifft"]
     oki = False
     if iff:
@@ -298,7 +308,7 @@ def _sign_one(R, rule, N):
                     oki = oki and close(cev(it[e], leafenv(env, iff[-1][2])), cev(s_tags[1][e], leafenv(env, st_c)))
         except NotSymbolic:
             oki = False
-    R.check(oki, rule, site + " (f) emitted component", "the inverse transform is applied to the second component of the kept candidate", key=f"sign|{N}|ifft")
+    R.check(oki, rule, site + " (f) emitted component", "the inverse transform is applied to the second component of the kept candidate", key=f"sign|{N}|ifft{KS}")
     cp = [c for c in calls if c[0] == "compress"]
     okc = False
     whyc = "no compress call"
@@ -313,7 +323,7 @@ def _sign_one(R, rule, N):
                 if not okc:
                     whyc = f"coefficient {i} handed to compress is {p}"
                     break
-    R.check(okc, rule, site + " (f) rounding", "compress receives round(re(ifft(s1)[i])) for each i, in order", whyc, key=f"sign|{N}|round")
+    R.check(okc, rule, site + " (f) rounding", "compress receives round(re(ifft(s1)[i])) for each i, in order", whyc, key=f"sign|{N}|round{KS}")
     R.analysed.setdefault("unsupported", []).extend(S.unsupported[:5])
 
 
@@ -382,19 +392,8 @@ def clause_verify(R, rule):
             if not E.ctx.quiet:
                 calls.append(("intt", forms(st, v)))
             return ret1(fpoly(st, "s1"), st)
-        def felt_op(op):
-            # contracts proved by C12 for every canonical argument: result canonical, residue class = op on the classes
-            def f(E, st, fr, bi, callee, args, dest_ty):
-                xs = [a.f[0] for a in args]
-                rs = [st.res.get(x.vid) for x in xs]
-                z = ctx.mk_int(st, 0, Q - 1, u32, taint=frozenset().union(*[st.taint.get(x.vid) or frozenset() for x in xs]))
-                if all(r is not None for r in rs):
-                    st.res[z.vid] = {"add": lambda: p_add(rs[0], rs[1]), "sub": lambda: p_add(rs[0], rs[1], -1), "mul": lambda: p_mul(rs[0], rs[1]), "neg": lambda: p_add({}, rs[0], -1)}[op]()
-                return ret1(Ag((z,)), st)
-            return f
-        FE = r"^<falcon_rust::falcon_field::Felt as std::ops::"
-        symalg.install(S, [(FELT_FFT + r"::fft$", m_ntt), (FELT_FFT + r"::ifft$", m_intt), (r"^falcon_rust::polynomial::hash_to_point$", m_h2p), (r"^falcon_rust::encoding::decompress$", m_dec),
-                           (FE + r"Add>::add$", felt_op("add")), (FE + r"Sub>::sub$", felt_op("sub")), (FE + r"Mul>::mul$", felt_op("mul")), (FE + r"Neg>::neg$", felt_op("neg"))])
+        symalg.install(S, [(FELT_FFT + r"::fft$", m_ntt), (FELT_FFT + r"::ifft$", m_intt), (r"^falcon_rust::polynomial::hash_to_point$", m_h2p), (r"^falcon_rust::encoding::decompress$", m_dec)]
+                       + symalg.felt_contract_models(S))
         ver = S.find(f"falcon::verify::<{N}>")
         sums = []
 
